@@ -24,7 +24,7 @@ NAME = "server"
 PROPERTIES = ["C17"]
 
 SPEC = {
-    "runs": {"quick": 450, "thorough": 20000},
+    "runs": {"quick": 450, "thorough": 30000},
     "wall": {"quick": 600, "thorough": 7200},
     "chunk": 6,
     "level": "exploration",
